@@ -10,6 +10,7 @@ from zope.interface import implementer
 from twisted.internet import defer
 from twisted.python import failure
 from twisted.internet.interfaces import IPushProducer, IConsumer
+from twisted.internet.error import ConnectionDone, ConnectionLost
 from foolscap.api import eventually, fireEventually, DeadReferenceError, \
      RemoteException
 
@@ -721,10 +722,13 @@ class Retrieve:
         # these are the errors we can tolerate: by giving up on this share
         # and finding others to replace it. Any other errors (i.e. coding
         # bugs) are re-raised, causing the download to fail.
-        f.trap(DeadReferenceError, RemoteException, BadShareError)
+        f.trap(DeadReferenceError, ConnectionDone, ConnectionLost,
+               RemoteException, BadShareError)
 
         # DeadReferenceError happens when we try to fetch data from a server
-        # that has gone away. RemoteException happens if the server had an
+        # that has gone away; a request that was already in flight when the
+        # connection went down fails with ConnectionDone or ConnectionLost
+        # instead. RemoteException happens if the server had an
         # internal error. BadShareError encompasses: (UnknownVersionError,
         # LayoutInvalid, struct.error) which happen when we get obviously
         # wrong data, and CorruptShareError which happens later, when we
